@@ -319,6 +319,11 @@ class Verifier(Engine):
             return z3.Exists([i], AND(i >= 0, i < n, self.seq_at(cont, i).t == it.t))
         if k == "str":
             return z3.Contains(cont.t, self.coerce(item, T.STR).t)
+        if k == "opt" and cont.ty.args[0].kind in ("ref", "dict", "set", "list"):
+            self.oblige("TypeError: argument of type 'NoneType' is not iterable", "safety", z3.Not(T.opt_is_none(cont.ty, cont.t)))
+            return self.contains(V(cont.ty.args[0], T.opt_val(cont.ty, cont.t)), item)
+        if k == "ref" and self.reg.contract_for("ext", "%s.__contains__" % cont.ty.args[0]) is not None:
+            return self.truth(self.call_ext("%s.__contains__" % cont.ty.args[0], cont, [item], {}))
         raise Unsupported("`in` on %r" % (cont.ty,))
 
     def ev_BinOp(self, n):
@@ -397,6 +402,10 @@ class Verifier(Engine):
 
     def ev_Dict(self, n):
         h = getattr(self, "_assign_hint", None)
+        if (h is None or h.kind != "dict") and not n.keys and "PyValue" in self.reg.classes:
+            r = self.new_ref(None, "pydict")
+            self.assume(self.typeof(r) == self.class_id("PyValue"))
+            return V(Ty("ref", "PyValue"), r)
         if h is None or h.kind != "dict":
             raise Unsupported("dict literal without a `locals` type hint")
         d = self.new_dict(h)
@@ -467,6 +476,14 @@ class Verifier(Engine):
         if k == "str":
             i = self.coerce(idx, T.INT).t
             return V(T.STR, z3.SubString(base.t, i, 1))
+        if k == "opt":
+            self.oblige("TypeError: 'NoneType' object is not subscriptable", "safety", z3.Not(T.opt_is_none(base.ty, base.t)))
+            inner = V(base.ty.args[0], T.opt_val(base.ty, base.t))
+            if inner.ty.kind == "dict":
+                return self.dict_get(inner, idx)
+            base, k = inner, inner.ty.kind
+        if k == "ref" and self.reg.contract_for("ext", "%s.__getitem__" % base.ty.args[0]) is not None:
+            return self.call_ext("%s.__getitem__" % base.ty.args[0], base, [idx], {})
         raise Unsupported("subscript of %r" % (base.ty,))
 
     def ev_slice(self, base, sl):
@@ -996,6 +1013,9 @@ class Verifier(Engine):
             raise Unsupported("constructor of undeclared class %s" % cname)
         if cname in T.VALUE_CLASSES:
             return self.construct_value(cname, args, kwargs)
+        ctor = self.reg.contract_for("ext", cname)
+        if ctor is not None:
+            return self.apply_contract(ctor, None, args, kwargs, callee_label=cname)
         init = self.member(cname, "__init__")
         r = self.new_ref(Ty("ref", cname), cname.lower().strip("_"))
         self.assume(self.typeof(r) == self.class_id(cname))
@@ -1035,6 +1055,10 @@ class Verifier(Engine):
         if short in NOOP_FUNCS and con is None:
             return NONE_V
         cur = self.frame.contract
+        if cur is not None and ".".join(qualname.split(".")[-2:]) in cur.prefer_ext:
+            ext = self.reg.contract_for("ext", ".".join(qualname.split(".")[-2:]))
+            if ext is not None:
+                return self.apply_contract(ext, selfv, args, kwargs, clsval=clsval)
         want_inline = cur is not None and (qualname in cur.inline or short in cur.inline)
         fdef = None
         if con is None or want_inline:
@@ -1125,7 +1149,7 @@ class Verifier(Engine):
 
     # ---- contracts at call sites
     def contract_param_names(self, con, selfv):
-        if not con.extern:
+        if con.file != "ext":
             try:
                 fdef = self.repo.function(con.file, con.qualname)
                 decos = [ast.unparse(d) for d in fdef.decorator_list]
@@ -1162,7 +1186,11 @@ class Verifier(Engine):
             env[nme] = v
         for k, v in kwargs.items():
             if k == "**":
-                raise Unsupported("**kwargs at a call to %s" % label)
+                kp = getattr(con, "kwargs_param", None)
+                if kp is None:
+                    raise Unsupported("**kwargs at a call to %s" % label)
+                env[kp] = v
+                continue
             if getattr(con, "varargs", False) and k not in con.params:
                 continue
             env[k] = v
@@ -1188,7 +1216,12 @@ class Verifier(Engine):
                         text="%s  [at `%s`]" % (cl.expr, site))
         # 2. outcomes
         outcomes = ["normal"] + sorted(con.raises.keys())
-        k = self.choose(len(outcomes), "outcome of " + label)
+        if getattr(con, "noreturn", False):
+            outcomes = sorted(con.raises.keys())
+            k = self.choose(len(outcomes), "outcome of " + label) + 1
+            outcomes = ["normal"] + outcomes
+        else:
+            k = self.choose(len(outcomes), "outcome of " + label)
         pc_before = list(self.st.glob) + list(self.st.pc)
         old_heap = dict(self.st.heap)
         self.havoc(con.modifies, env, allocates=bool(con.fresh_result or getattr(con, 'allocates', False)))
